@@ -115,6 +115,8 @@ def check_roundtrip(h, rep, where):
                 bad = {k: (got.get(k), norm_readable(want).get(k)) for k in set(got) | set(want) if got.get(k) != norm_readable(want).get(k)}
                 raise Failure("C09:state-readable", f"{where}: {label} row {i}: {bad} (got, expected by documented layout)",
                               bucket="C09:state-readable")
+    check_host_decoders(h, env.current_state, t, where + " state")
+    check_host_decoders(h, s2, t, where + " State.from_numpy")
     o = env.last_obs.tensor
     oflat = np.array(o, copy=True).flatten()
     o2 = Observation.from_numpy(oflat, shape)
@@ -134,6 +136,38 @@ def check_roundtrip(h, rep, where):
             if unique_names and got != want:
                 bad = {k: (got.get(k), want.get(k)) for k in set(got) | set(want) if got.get(k) != want.get(k)}
                 raise Failure("C09:obs-readable", f"{where}: {label} row {i}: {bad}", bucket="C09:obs-readable")
+
+
+def check_host_decoders(h, state, t, where):
+    """per-host readable decoders of a state (State.get_host(...).<field>, is_running_*, State.host_*)
+    against the documented-layout decoding of the same row - category by category, so a name shared
+    by a service and a process is decided by its own block"""
+    spec = h.spec
+    for addr, i in h.rowmap.items():
+        d = h.layout.decode_row(t[i])
+        hv = state.get_host(addr)
+        got = dict(address=tuple(int(x) for x in hv.address), compromised=float(bool(hv.compromised)), reachable=float(bool(hv.reachable)),
+                   discovered=float(bool(hv.discovered)), value=float(hv.value), discovery_value=float(hv.discovery_value),
+                   access=float(hv.access),
+                   os={o: float(bool(hv.is_running_os(o))) for o in spec.os},
+                   services={s_: float(bool(hv.is_running_service(s_))) for s_ in spec.services},
+                   processes={p_: float(bool(hv.is_running_process(p_))) for p_ in spec.processes})
+        if got != d:
+            bad = {k: (got[k], d[k]) for k in d if got[k] != d[k]}
+            raise Failure("C09:host-decoder", f"{where}: host {addr} decoders {bad} (got, row decoded by the documented layout)",
+                          bucket="C09:host-decoder:" + "+".join(sorted(bad)))
+        got2 = dict(os={k: float(bool(v)) for k, v in hv.os.items()}, services={k: float(bool(v)) for k, v in hv.services.items()},
+                    processes={k: float(bool(v)) for k, v in hv.processes.items()})
+        want2 = {k: d[k] for k in got2}
+        if got2 != want2:
+            raise Failure("C09:host-decoder-dicts", f"{where}: host {addr} os/services/processes dicts {got2} != {want2}")
+        st_got = (bool(state.host_compromised(addr)), bool(state.host_reachable(addr)), bool(state.host_discovered(addr)),
+                  tuple(bool(state.host_is_running_service(addr, s_)) for s_ in spec.services),
+                  tuple(bool(state.host_is_running_os(addr, o)) for o in spec.os))
+        st_want = (bool(d["compromised"]), bool(d["reachable"]), bool(d["discovered"]),
+                   tuple(bool(d["services"][s_]) for s_ in spec.services), tuple(bool(d["os"][o]) for o in spec.os))
+        if st_got != st_want:
+            raise Failure("C09:state-decoder", f"{where}: host {addr} State.host_* queries {st_got} != {st_want}")
 
 
 def run_case(case, rep, record=True):
